@@ -73,6 +73,10 @@ func genPreds() []logql.LabelPredicate {
 		&logql.LabelPredicateBinOp{Left: &logql.LabelPredicateParen{X: &logql.LabelPredicateBinOp{Left: a, Op: logql.OpOr, Right: b}}, Op: logql.OpAnd, Right: c},
 		&logql.LabelPredicateBinOp{Left: a, Op: logql.OpOr, Right: &logql.LabelPredicateParen{X: &logql.LabelPredicateBinOp{Left: b, Op: logql.OpAnd, Right: c}}},
 		&logql.LabelPredicateParen{X: a},
+		// a parenthesised operand on the right of and (also written as a comma, and as nothing at all)
+		&logql.LabelPredicateBinOp{Left: a, Op: logql.OpAnd, Right: &logql.LabelPredicateParen{X: &logql.LabelPredicateBinOp{Left: b, Op: logql.OpOr, Right: c}}},
+		&logql.LabelPredicateBinOp{Left: &logql.LabelPredicateParen{X: &logql.LabelPredicateBinOp{Left: a, Op: logql.OpOr, Right: b}}, Op: logql.OpAnd, Right: &logql.LabelPredicateParen{X: &logql.LabelPredicateBinOp{Left: b, Op: logql.OpOr, Right: c}}},
+		&logql.LabelPredicateBinOp{Left: &logql.LabelPredicateParen{X: a}, Op: logql.OpAnd, Right: &logql.LabelPredicateParen{X: b}},
 	}
 	return out
 }
